@@ -328,11 +328,117 @@ func c04Scripted() vs.Verdict {
 	return f.verdict(fmt.Sprintf("mode=%s result=%s notices=%s", modes[mode], cls, strings.Join(ft.notesSeen, "|")))
 }
 
+// c04RawServer: a raw peer has two tool calls in flight on a server session, optionally sends a
+// third request that reuses the id of one of them (refused as a duplicate), and then cancels one
+// call by id: exactly that call's handler observes ctx.Done, the other keeps running and both
+// are answered.
+func c04RawServer(version string) vs.Verdict {
+	f := &e1Fail{prefix: "c04 raw-server"}
+	ctx := context.Background()
+	dup := vs.Choose("duplicate-request", 3, 0) // 0: none, 1: reuses the id of call 1, 2: of call 2
+	target := 1 + vs.Choose("cancel-target", 2, 0)
+	ctl := vs.NewController()
+	gates := map[int]*vs.Gate{1: ctl.Gate("1"), 2: ctl.Gate("2")}
+	vs.Quiet(true)
+	s := NewServer(&Implementation{Name: "srv", Version: "1"}, &ServerOptions{Logger: quietLogger})
+	AddTool(s, &Tool{Name: "t"}, func(ctx context.Context, r *CallToolRequest, in c03Args) (*CallToolResult, any, error) {
+		vs.Event("start %d", in.K)
+		if gates[in.K].WaitOr(ctx.Done()) {
+			vs.Event("finish %d", in.K)
+			return &CallToolResult{Content: []Content{&TextContent{Text: fmt.Sprint(in.K)}}}, nil, nil
+		}
+		vs.Event("cancelled %d", in.K)
+		return nil, nil, ctx.Err()
+	})
+	ct, st := NewInMemoryTransports()
+	ss, err := s.Connect(ctx, st, nil)
+	if err != nil {
+		ctl.Stop()
+		return vs.Verdict{Bad: "connect failed: " + err.Error(), Sig: "c04 connect-failed"}
+	}
+	peer := ct.rwc
+	var lines []string
+	drained := make(chan struct{})
+	vs.Go(func() {
+		defer close(drained)
+		buf := make([]byte, 0, 1<<16)
+		tmp := make([]byte, 4096)
+		for {
+			n, err := peer.Read(tmp)
+			buf = append(buf, tmp[:n]...)
+			for {
+				i := strings.IndexByte(string(buf), '\n')
+				if i < 0 {
+					break
+				}
+				lines = append(lines, string(buf[:i]))
+				buf = buf[i+1:]
+			}
+			if err != nil {
+				return
+			}
+		}
+	})
+	send := func(line string) { io.WriteString(peer, line+"\n") }
+	send(`{"jsonrpc":"2.0","id":"i","method":"initialize","params":{"protocolVersion":"` + version + `","capabilities":{},"clientInfo":{"name":"peer","version":"1"}}}`)
+	send(`{"jsonrpc":"2.0","method":"notifications/initialized","params":{}}`)
+	vs.WaitIdle()
+	vs.Quiet(false)
+	send(`{"jsonrpc":"2.0","id":1,"method":"tools/call","params":{"name":"t","arguments":{"k":1}}}`)
+	send(`{"jsonrpc":"2.0","id":2,"method":"tools/call","params":{"name":"t","arguments":{"k":2}}}`)
+	if dup > 0 {
+		send(fmt.Sprintf(`{"jsonrpc":"2.0","id":%d,"method":"ping"}`, dup))
+	}
+	send(fmt.Sprintf(`{"jsonrpc":"2.0","method":"notifications/cancelled","params":{"requestId":%d}}`, target))
+	// the gates of handlers still parked are opened by the controller once nothing else can run
+	vs.WaitIdle()
+	ctl.Stop()
+	vs.Quiet(true)
+	send(`{"jsonrpc":"2.0","id":"final","method":"ping"}`)
+	vs.WaitIdle()
+	peer.Close()
+	ss.Close()
+	<-drained
+	vs.Quiet(false)
+	evs := vs.Events()
+	other := 3 - target
+	if evIndex(evs, fmt.Sprintf("start %d", target)) >= 0 && evIndex(evs, fmt.Sprintf("cancelled %d", target)) < 0 {
+		f.failf("cancel-not-delivered", "the peer cancelled call %d (duplicate request: %d) but its handler's context was never cancelled: %s", target, dup, evJoin(evs))
+	}
+	if evIndex(evs, fmt.Sprintf("cancelled %d", other)) >= 0 {
+		f.failf("wrong-handler-cancelled", "the peer cancelled call %d but the handler of call %d observed ctx.Done: %s", target, other, evJoin(evs))
+	}
+	answers := map[string]int{}
+	for _, l := range lines {
+		var m struct {
+			ID     json.RawMessage `json:"id"`
+			Method string          `json:"method"`
+		}
+		if json.Unmarshal([]byte(l), &m) == nil && m.Method == "" {
+			answers[string(m.ID)]++
+		}
+	}
+	for _, id := range []string{"1", "2"} {
+		want := 1
+		if fmt.Sprint(dup) == id {
+			want = 2 // the refused duplicate may be answered under the id it carried
+		}
+		if answers[id] < 1 || answers[id] > want {
+			f.failf("call-answer-count", "call %s received %d responses (duplicate request: %d): %v", id, answers[id], dup, lines)
+		}
+	}
+	if answers[`"final"`] != 1 {
+		f.failf("session-unusable", "the final ping received %d responses: %v", answers[`"final"`], lines)
+	}
+	return f.verdict(fmt.Sprintf("dup=%d target=%d %s", dup, target, strings.Join(evs, ",")))
+}
+
 func TestVerifC04(t *testing.T) {
 	env := verifx.LoadEnv("C04")
 	scs := []*verifx.Scenario{
 		vs.E1(t, "session/2025-06-18", env.Pick(1, 2), vs.Options{}, func() vs.Verdict { return c04Sessions("2025-06-18") }),
 		vs.E1(t, "scripted-peer", env.Pick(2, 3), vs.Options{}, func() vs.Verdict { return c04Scripted() }),
+		vs.E1(t, "raw-server/cancel-by-id/2025-06-18", env.Pick(1, 2), vs.Options{}, func() vs.Verdict { return c04RawServer("2025-06-18") }),
 	}
 	env.Run(scs)
 }
